@@ -28,6 +28,8 @@ def run(tier, scratch, t0, replay=None):
         by_dir.setdefault(os.path.dirname(p), []).append(p)
     for d, ps in sorted(by_dir.items()):
         seeds += rng.sample(ps, min(len(ps), 2 if quick else 12))
+    # the dropbox-encrypted file goes through a reader of its own (xdis.dropbox): always a seed
+    seeds += [p for p in corp if "dropbox" in p and p not in seeds]
     # fresh seeds from every reference interpreter (incl. 3.13, which the corpus lacks)
     batches = D.build_batches(scratch, sorted(K.available_interps()), tier, "C11", n_stdlib=0, n_gen=2 if quick else 12, batch=40,
                               with_corpus=False, gen_snippets=2)
